@@ -146,7 +146,7 @@ SchemaV == [validators |-> <<"always_ok">>] @@ SchemaF(<<
     <<"opts", With(DictF(StringF, IntF), [required |-> TRUE, default |-> DictV(<< <<s(<<"k">>), IntV(1)>> >>)])>>,
     <<"feat", FeatS>>,
     <<"core", CoreS>>,
-    <<"srv", ListF(ItemV)>> >>)
+    <<"srv", With(ListF(ItemV), [default |-> ListV(<<D1(<<"h", "o", "s", "t">>, s(<<"h", "0">>))>>)])>> >>)
 
 TCore(x) == D1(<<"c", "o", "r", "e">>, D1(<<"x">>, x))
 TFull == DictV(<< <<s(<<"n", "a", "m", "e">>), s(<<"a", "p", "p">>)>>, <<s(<<"t", "a", "g", "s">>), ListV(<<s(<<"t", "1">>)>>)>>, <<s(<<"c", "o", "r", "e">>), D1(<<"x">>, IntV(1))>> >>)
